@@ -5,6 +5,7 @@ import (
 	"sync"
 	"sync/atomic"
 
+	"github.com/aperturerobotics/util/verifhook"
 	"github.com/sirupsen/logrus"
 )
 
@@ -34,6 +35,7 @@ func (k *KeyedRef[K, V]) Release() {
 	if k.rel.Swap(true) {
 		return
 	}
+	verifhook.Point("lock-enter", k.rc)
 	k.rc.mtx.Lock()
 	refs := k.rc.refs[k.key]
 	for i := 0; i < len(refs); i++ {
@@ -148,6 +150,7 @@ func (k *KeyedRefCount[K, V]) RestartAllRoutines(conds ...func(K, V) bool) (rest
 //
 // Returns if the key existed.
 func (k *KeyedRefCount[K, V]) RemoveKey(key K) bool {
+	verifhook.Point("lock-enter", k)
 	k.mtx.Lock()
 	defer k.mtx.Unlock()
 
@@ -165,6 +168,7 @@ func (k *KeyedRefCount[K, V]) RemoveKey(key K) bool {
 // AddKeyRef adds a reference to the given key.
 // Returns if the key already existed or not.
 func (k *KeyedRefCount[K, V]) AddKeyRef(key K) (ref *KeyedRef[K, V], data V, existed bool) {
+	verifhook.Point("lock-enter", k)
 	k.mtx.Lock()
 	refs := k.refs[key]
 	nref := &KeyedRef[K, V]{rc: k, key: key}
